@@ -575,6 +575,10 @@ class Function(Value):
         return self.__name
 
     def ReplaceUses(self, uses):
+        # Earlier passes may have exchanged instructions without refreshing the
+        # use lists, and we must not patch instructions that are long gone
+        self.UpdateUses()
+
         for ref, new in uses.items():
             for instruction in self.__uses[ref]:
                 instruction.ReplaceUses(ref, new)
